@@ -251,6 +251,7 @@ class WorkQueue:
         self._channel: Queue[Any] = Queue()
         self._stopped = False
         self._pump_tasks: set[Task[None]] = set()
+        self._cleanup_futures: set[Future[Any]] = set()
 
         new_groups, new_streams = self._maybe_integrate_work(initial_work)
         non_empty_initial_root_groups = self._prune_empty_groups(new_groups)
@@ -296,8 +297,21 @@ class WorkQueue:
     async def cancel(self, reason: BaseException | None = None) -> None:
         """Cancel all pending work, awaiting any asynchronous cleanup."""
         self._stopped = True
-        self._channel.put_nowait(_STOP)  # wake up a parked event consumer
         cancel_awaitables: list[Awaitable[Any]] = []
+        # Work nested in graph events that have not been handled yet will never
+        # be integrated into the graph, so it must be cancelled here.
+        channel = self._channel
+        while True:
+            try:
+                graph_event = channel.get_nowait()
+            except QueueEmpty:
+                break
+            if isinstance(graph_event, _TaskSuccess):
+                self._cancel_work(graph_event.result.work, reason, cancel_awaitables)
+            elif isinstance(graph_event, _StreamItems):
+                for item in graph_event.items:
+                    self._cancel_work(item.work, reason, cancel_awaitables)
+        channel.put_nowait(_STOP)  # wake up a parked event consumer
         for group in list(self._root_groups):
             self._cancel_group(group, reason, cancel_awaitables)
         for stream in list(self._root_streams):
@@ -305,8 +319,22 @@ class WorkQueue:
         for pump_task in self._pump_tasks:
             pump_task.cancel()
         cancel_awaitables.extend(self._pump_tasks)
+        cancel_awaitables.extend(self._cleanup_futures)
         if cancel_awaitables:
             await gather(*cancel_awaitables, return_exceptions=True)
+
+    def _cancel_work(
+        self,
+        work: Work | None,
+        reason: BaseException | None,
+        cancel_awaitables: list[Awaitable[Any]],
+    ) -> None:
+        """Cancel work that has not been integrated into the graph."""
+        if work:
+            for task in work.tasks:
+                self._cancel_task(task, reason, cancel_awaitables)
+            for stream in work.streams:
+                self._cancel_stream(stream, reason, cancel_awaitables)
 
     def _cancel_group(
         self,
@@ -653,11 +681,25 @@ class WorkQueue:
         del group_nodes[group]
         for task in list(group_node.tasks):
             if all(task_group not in group_nodes for task_group in task.groups):
+                self._cancel_child_streams(task)
                 self._remove_task(task)
         for child_group in group_node.child_groups:
             child_group_node = group_nodes.get(child_group)
             if child_group_node:
                 self._remove_group(child_group, child_group_node)
+
+    def _cancel_child_streams(self, task: WorkTask) -> None:
+        """Cancel the streams produced by a task that is removed undelivered."""
+        task_node = self._task_nodes.get(task)
+        if task_node and task_node.child_streams:
+            cancel_awaitables: list[Awaitable[Any]] = []
+            for child_stream in task_node.child_streams:
+                self._cancel_stream(child_stream, None, cancel_awaitables)
+            cleanup_futures = self._cleanup_futures
+            for awaitable in cancel_awaitables:
+                future = ensure_future(awaitable)
+                cleanup_futures.add(future)
+                future.add_done_callback(cleanup_futures.discard)
 
     def _remove_task(self, task: WorkTask) -> None:
         """Remove a task from all its groups and from the graph."""
